@@ -66,7 +66,8 @@ Observables recorded by the harness entities, in time order:
 * `ack p slot ci0 ci1 b cmd` — an `Accepted` for `slot` was delivered to node `p`; its public
   `log.commit_index` was `ci0` before and `ci1` after the delivery, its ballot afterwards is `b` and
   its log holds `cmd` at `slot` (0 = nothing).  `ci0 < ci1` is a *commit by the leader*;
-* `prom p bn l0 l1` — phase 1, see below.
+* `prom p bn l0 l1` — phase 1, see below;
+* `pled p b l1`, `asg p slot`, `pcar d b slot cmd` — leadership after a promise, see further below.
 
 Two readings of "a slot is decided only once a phase-2 quorum accepted it":
 * `commitQuorum q2` (acknowledgement form, judged): at a commit by the leader at least `q2`
@@ -83,6 +84,9 @@ inductive LogObs
   | acc (d b slot cmd : Nat)
   | ack (p slot ci0 ci1 b cmd : Nat)
   | prom (p bn : Nat) (l0 l1 : Bool)
+  | pled (p b : Nat) (l1 : Bool)          -- `p` answered a Prepare for ballot `b` with a Promise; `l1` = its `is_leader` afterwards
+  | asg (p slot : Nat)                    -- a `submit()` call on `p` made its public log grow: `p` assigned `slot` itself
+  | pcar (d b slot cmd : Nat)             -- a Promise for ballot `b` sent to `d` carried `cmd` at `slot`
 deriving Repr, DecidableEq
 
 /-- `ok hist o` for every observation `o` of the list, `hist` = the observations before it (newest first) -/
@@ -150,6 +154,93 @@ def leaderQuorum (q1 : Nat) : List LogObs → List LogObs → Bool := checkAll (
 def judgeLeader (pfx : String) (q1 : Nat) (obs : List LogObs) : Option String :=
   if !leaderQuorum q1 [] obs then some (pfx ++ "/leader/without-phase1-quorum") else none
 
+/-! ### a node that promised another node's ballot does not act as leader
+
+`pled p b l1` — node `p` answered a `Prepare` for ballot `b` (a ballot of another node, at least as
+high as its own) with a `Promise`; `l1` = its public `is_leader` afterwards.
+`asg p slot` — a client's `submit()` on `p` made the public log of `p` grow: `p` assigned `slot`
+to the command itself (only a leader does; any other node parks the command).
+
+* `promiseClears`: after promising, `is_leader` is false.
+* `deposedSilent q1`: a node is *deposed* from the moment it sends such a promise until a phase-1
+  response (`prom`) leaves it leader again — by a `false → true` transition (which the phase-1 rule
+  judges) or with a phase-1 quorum of responses for that ballot number.  A deposed node neither assigns a
+  slot (`asg`) nor sends an `Accept` (`prop`): it would stamp them with the ballot of the node it promised. -/
+
+def promiseClearsOk : LogObs → Bool
+  | .pled _ _ l1 => !l1
+  | _ => true
+
+def promiseClears : List LogObs → List LogObs → Bool := checkAll (fun _ o => promiseClearsOk o)
+
+/-- `hist` newest first -/
+def deposed (q1 : Nat) : List LogObs → Nat → Bool
+  | [], _ => false
+  | .pled p' _ _ :: hist, p => p' == p || deposed q1 hist p
+  | .prom p' bn l0 l1 :: hist, p =>
+    if p' == p && (l1 && (!l0 || decide (q1 ≤ promCnt hist p bn + 1))) then false else deposed q1 hist p
+  | _ :: hist, p => deposed q1 hist p
+
+def assignOk (q1 : Nat) (hist : List LogObs) : LogObs → Bool
+  | .asg p _ => !deposed q1 hist p
+  | .prop p _ _ _ => !deposed q1 hist p
+  | _ => true
+
+def deposedSilent (q1 : Nat) : List LogObs → List LogObs → Bool := checkAll (assignOk q1)
+
+def judgeDeposed (pfx : String) (q1 : Nat) (obs : List LogObs) : Option String :=
+  if !deposedSilent q1 [] obs then some (pfx ++ "/leader/deposed-leader-assigns-slot")
+  else if !promiseClears [] obs then some (pfx ++ "/leader/still-leader-after-promising-higher-ballot")
+  else none
+
+/-! ### what introduced the second value of a slot
+
+When two different commands are reported as decided for slot `k`, the `prop` / `pcar` observations
+tell how the second one came about.  `(sender, ballot)` pairs that proposed `v` for `k`: -/
+
+def proposers (obs : List LogObs) (k v : Nat) : List (Nat × Nat) :=
+  obs.filterMap fun
+    | .prop p b s c => if s == k && c == v then some (p, b) else none
+    | _ => none
+
+def carried (obs : List LogObs) (d b k v : Nat) : Bool := obs.contains (.pcar d b k v)
+
+/-- suffix of the agreement signature:
+* `/value-never-proposed-for-slot` — one of the two commands was never sent in an `Accept` for `k` (an
+  acceptor stored it at another position than the slot named in the `Accept`, or a leader committed its own entry);
+* `/one-ballot-two-proposers` — both commands were proposed for `k` under one ballot by two different nodes
+  (a node proposes under a ballot it does not own);
+* `/after-leader-change-ignoring-promise-logs` — the commands were proposed under different ballots and a
+  `Promise` sent to the proposer of one of them, for the ballot it proposed under, carried the other command at `k`;
+* `/after-leader-change` — different ballots, no such promise;
+* empty — one node proposed both commands for `k` under one ballot. -/
+def twoValuesTrigger (obs : List LogObs) (k v1 v2 : Nat) : String :=
+  let P1 := proposers obs k v1
+  let P2 := proposers obs k v2
+  if P1.isEmpty || P2.isEmpty then "/value-never-proposed-for-slot"
+  else if P1.any (fun a => P2.any fun c => a.2 == c.2 && a.1 != c.1) then "/one-ballot-two-proposers"
+  else if P1.any (fun a => P2.any fun c => a.2 == c.2) then ""
+  else if P1.any (fun a => carried obs a.1 a.2 k v2) || P2.any (fun c => carried obs c.1 c.2 k v1) then
+    "/after-leader-change-ignoring-promise-logs"
+  else "/after-leader-change"
+
+/-- the first reported decision and the first one that differs from it -/
+def twoVals : List Nat → Option (Nat × Nat)
+  | [] => none
+  | x :: xs => (xs.find? (· != x)).map fun y => (x, y)
+
+/-- `judgeInst` for one slot of a replicated log: the agreement signature names its trigger -/
+def judgeSlot (pfx : String) (obs : List LogObs) (k : Nat) (o : Inst) : Option String :=
+  if !stability o then some (pfx ++ "/stability/decision-changed")
+  else if !agreement o then
+    some (pfx ++ "/agreement/two-values" ++
+      (match twoVals o.decisions with
+       | some (v1, v2) => twoValuesTrigger obs k v1 v2
+       | none => ""))
+  else if !validity o then some (pfx ++ "/validity/unproposed-value")
+  else if !futures o then some (pfx ++ "/future/resolved-with-other-value")
+  else none
+
 /-! ## Distributed lock: fencing tokens strictly increase across grants -/
 
 /-- an observed grant: (lock, holder, token) -/
@@ -183,5 +274,48 @@ def oneLeaderPerTerm (rs : List (Nat × Nat × Nat)) : Bool :=
 
 def judgeElection (rs : List (Nat × Nat × Nat)) : Option String :=
   if oneLeaderPerTerm rs then none else some "election/one-leader-per-term/two-leaders"
+
+/-- The known weakness (terms are per-node counters) needs differing or changing member views: a node
+    that joins counts its own terms.  When every node was given the same member set and no `add_member`
+    happened during the run, two leaders for one term get a signature of their own. -/
+def judgeElectionV (identicalStaticViews : Bool) (rs : List (Nat × Nat × Nat)) : Option String :=
+  if oneLeaderPerTerm rs then none
+  else if identicalStaticViews then some "election/one-leader-per-term/two-leaders-with-identical-static-views"
+  else some "election/one-leader-per-term/two-leaders"
+
+/-! ### within one node: the reported leader of a term
+
+One handler invocation on node `node` as a user sees it: the public `(current_term, current_leader)`
+before (`t0`, `l0`) and after (`t1`, `l1`); for a delivered `LeaderHeartbeat`, `isHb` and the term it
+carried (`hterm`).
+
+* `staleHbOk`: a heartbeat stamped with a term older than the receiver's current term changes neither
+  the term nor the leader it reports (the sender was deposed in the meantime).
+* `withinTermOk`: when the reported leader changes although the term does not move, the step is the
+  delivery of a heartbeat carrying exactly that term.  (Two leaders claiming one term number is the known
+  weakness of per-node term counters, judged by `oneLeaderPerTerm`; any other way of swapping the leader
+  inside a term is not.) -/
+
+structure ElStep where
+  node : Nat
+  isHb : Bool
+  hterm : Nat
+  t0 : Nat
+  l0 : Option Nat
+  t1 : Nat
+  l1 : Option Nat
+deriving Repr, DecidableEq
+
+def staleHbOk (o : ElStep) : Bool :=
+  !(o.isHb && decide (o.hterm < o.t0)) || (o.t1 == o.t0 && o.l1 == o.l0)
+
+def leaderSwapped (o : ElStep) : Bool := o.t1 == o.t0 && o.l0.isSome && o.l1 != o.l0
+
+def withinTermOk (o : ElStep) : Bool := !leaderSwapped o || (o.isHb && decide (o.t0 ≤ o.hterm))
+
+def judgeElSteps (os : List ElStep) : Option String :=
+  if !os.all staleHbOk then some "election/leader/changed-within-term-by-stale-heartbeat"
+  else if !os.all withinTermOk then some "election/leader/changed-within-term-without-heartbeat"
+  else none
 
 end HappyModel.C12.Spec
